@@ -431,3 +431,29 @@ def c09(ctx):
                     assumptions=["TLC/SANY and the JVM", "Scte35/Wide/Crc modules", "header fields without getter (table id, ssi, private, protocol_version, encryption_algorithm, cw_index) are taken from "
                                  "creation defaults or from the decoded source", "pts_adjustment is compared only when the command carries a time",
                                  "getters are compared for out-of-range arguments only where the API documents truncation (tier, segmentation duration, command PTS)"])
+
+
+# ---------------------------------------------------------------- C05
+
+def c05_sig(e, reason):
+    if reason == "panic":
+        return "%s/panic@%s/%s" % (e.get("op", "?"), e.get("site", "?"), V.panic_site(e))
+    return "%s/%s" % (e.get("op", "?"), reason)
+
+
+@prop("C05", "Trace_C05", c05_sig)
+def c05(ctx):
+    summ = V.gen_traces(ctx, shards=12)
+    V.validate(ctx, "Trace_C05", summ, c05_sig, par=12, timeout=3000)
+    ctx.states = max(ctx.states, 0)
+    return V.finish(ctx, "exploration",
+                    rule="monitored execution in a child process (recover, 4 s deadline, 512 MB heap limit, allocation accounting) of 21 entry-point groups covering every decoding API and, inside each "
+                         "call, every getter / printer / re-encoder of the returned object. Inputs: 188-byte arrays with the control-steering bytes enumerated (adaptation_field_control x 17 "
+                         "adaptation_field_length values x flags bytes (every 5th quick / all 256 thorough) x first optional length byte in {0,1,183,255}) plus random packets; for each parser well-formed "
+                         "vectors of every format and their near misses (truncation at every (quick: strided) length, every leading byte set to 0/1/v-1/v+1/0x7F/0x80/0xFF, bit flips, extensions, the "
+                         "vectors of the other formats, empty, random and 'structural' short strings); descriptors of every tag with bodies 0..6; packet streams (PAT+PMT+foreign) cut and corrupted the "
+                         "same way. Every recorded execution is judged by TLC against Totality (outcome in {value,error}, read-only inputs untouched, allocation <= 2 MiB + 4096 x input length). "
+                         "class = (entry point, input source, length bucket, outcome)",
+                    trace_module="Trace_C05", sigfn=c05_sig,
+                    assumptions=["level is exploration: a TLA+ model cannot observe Go panics/loops; the specification supplies the contract and the structure of the input space",
+                                 "hang = no result within 4 s in the worker; oom = live heap above 512 MB", "parsers are read-only with respect to the caller's buffer, including the printing and re-encoding of the returned object"])
